@@ -20,6 +20,12 @@ VERIF = os.path.dirname(os.path.dirname(os.path.abspath(__file__)))
 REPO = os.path.realpath(os.environ.get("VERIF_REPO", "/repo"))
 WORK = os.path.join(VERIF, ".work")
 NCPU = os.cpu_count() or 4
+# development aid: while many people share the machine (.work/BUSY exists) every check run is throttled
+BUSY = os.path.exists(os.path.join(WORK, "BUSY"))
+if os.environ.get("VERIF_NCPU"):
+    NCPU = max(1, int(os.environ["VERIF_NCPU"]))
+elif BUSY:
+    NCPU = 5
 ALT = REPO != "/repo"
 if not ALT:
     # the registered checks: /repo itself, evidence and replays under /verif
@@ -85,6 +91,8 @@ def sh(cmd, timeout=None, cwd=None, env=None, inp=None):
     """Run a command; returns (rc, stdout, stderr). rc=124 on timeout."""
     e = dict(os.environ)
     e.setdefault("CARGO_NET_OFFLINE", "true")
+    if BUSY:
+        e.setdefault("CARGO_BUILD_JOBS", "6")
     if env:
         e.update(env)
     try:
